@@ -501,6 +501,57 @@ pub fn families(cfg: &FamCfg) -> Vec<Shape> {
             push(&mut v, AG::Pts(s.clone()), gcw(vec![a.clone(), b.clone()]), "GCmx");
             push(&mut v, AG::Pts(s.clone()), gcw(vec![b, a]), "GCmx");
         }
+        // NEST: containers that hold the whole 3x3 window strictly inside (no boundary contact), one per areal type, and a frame whose hole
+        // holds it: every other shape of the families is strictly nested in them (containment without contact, nested envelopes)
+        let pent: Vec<IP> = vec![(-1, -1), (3, -1), (4, 1), (3, 3), (-1, 3)];
+        let bigtri: Vec<IP> = vec![(-2, -1), (6, -1), (-2, 7)];
+        let sq = |lo: i64, hi: i64| -> Vec<IP> { vec![(lo, lo), (hi, lo), (hi, hi), (lo, hi)] };
+        let far: Vec<IP> = vec![(10, 10), (12, 10), (10, 12)];
+        let pl = |r: &Vec<IP>| Poly { shell: r.clone(), holes: vec![] };
+        push(&mut v, AG::Polys(vec![pl(&sq(-1, 3))]), Geometry::Rect(Rect::new(c((-1, -1)), c((3, 3)))), "NEST");
+        push(&mut v, AG::Polys(vec![pl(&bigtri)]), Geometry::Triangle(Triangle(c(bigtri[0]), c(bigtri[1]), c(bigtri[2]))), "NEST");
+        push(&mut v, AG::Polys(vec![pl(&pent)]), Geometry::Polygon(poly(&pl(&pent))), "NEST");
+        let frame = Poly { shell: sq(-3, 5), holes: vec![sq(-1, 3)] };
+        push(&mut v, AG::Polys(vec![frame.clone()]), Geometry::Polygon(poly(&frame)), "NEST");
+        push(&mut v, AG::Polys(vec![pl(&pent), pl(&far)]), Geometry::MultiPolygon(MultiPolygon(vec![poly(&pl(&pent)), poly(&pl(&far))])), "NEST");
+        push(&mut v, AG::Polys(vec![pl(&sq(-1, 3))]), gcw(vec![Geometry::Rect(Rect::new(c((-1, -1)), c((3, 3))))]), "NEST");
+        push(&mut v, AG::Polys(vec![pl(&far), pl(&bigtri)]), gcw(vec![Geometry::Polygon(poly(&pl(&far))), Geometry::Triangle(Triangle(c(bigtri[0]), c(bigtri[1]), c(bigtri[2])))]), "NEST");
+        // EMPTYMEM: Multi* with an empty member first, in the middle or last (the point set is that of the other members)
+        let t1: Vec<IP> = vec![(0, 0), (1, 0), (0, 1)];
+        let t2: Vec<IP> = vec![(1, 1), (2, 1), (2, 2), (1, 2)];
+        let empty_pg = Polygon::new(LineString::new(vec![]), vec![]);
+        for k in 0..3usize {
+            let mut m = vec![poly(&pl(&t1)), poly(&pl(&t2))];
+            m.insert(k, empty_pg.clone());
+            push(&mut v, AG::Polys(vec![pl(&t1), pl(&t2)]), Geometry::MultiPolygon(MultiPolygon(m)), "EMPTYMEM");
+            let (l1, l2): (Vec<IP>, Vec<IP>) = (vec![(0, 0), (2, 1)], vec![(0, 2), (1, 2), (2, 2)]);
+            let mut ml = vec![ls(&l1), ls(&l2)];
+            ml.insert(k, LineString::new(vec![]));
+            push(&mut v, AG::Lines(vec![l1, l2]), Geometry::MultiLineString(MultiLineString(ml)), "EMPTYMEM");
+        }
+        let mut one = vec![poly(&pl(&t2))];
+        one.insert(0, empty_pg.clone());
+        push(&mut v, AG::Polys(vec![pl(&t2)]), Geometry::MultiPolygon(MultiPolygon(one)), "EMPTYMEM");
+        // LSrun / LNrun: a closed line string written from every start vertex in both directions whose sides are runs of three collinear segments,
+        // and every segment lying on its bottom side (end points at vertices and in the middle of the run's segments)
+        let r8: Vec<IP> = vec![(0, 0), (2, 0), (4, 0), (6, 0), (6, 2), (4, 2), (2, 2), (0, 2)];
+        for rot in 0..8 {
+            for rev in [false, true] {
+                let mut r = rotate_ring(&r8, rot);
+                if rev {
+                    r.reverse();
+                }
+                let cl = close(&r);
+                push(&mut v, AG::Lines(vec![cl.clone()]), Geometry::LineString(ls(&cl)), "LSrun");
+            }
+        }
+        for x0 in 0..=6i64 {
+            for x1 in 0..=6i64 {
+                if x0 != x1 && (x1 - x0).abs() >= 3 {
+                    push(&mut v, AG::Lines(vec![vec![(x0, 0), (x1, 0)]]), Geometry::Line(Line::new(c((x0, 0)), c((x1, 0)))), "LNrun");
+                }
+            }
+        }
     }
     v
 }
